@@ -144,6 +144,14 @@ Disconnect(p) ==
          IN Set(Dequeue(s0, conn \ {p}, {q \in Peer : st'[q] # "none"}, order))
     /\ Log(<<"disconnect", p>>)
 
+\* disconnected() for a link that is not the session's link (the losing connection of a conflict is
+\* torn down): ignored by the service -- in particular its fetches stay
+StaleDisconnect(p) ==
+    /\ st[p] # "none"
+    /\ applied' = <<>>
+    /\ Log(<<"stale_disconnect", p>>)
+    /\ UNCHANGED <<st, sfetch, queue, fetching, tasks, live>>
+
 \* maintain_persistent: time to dial a disconnected persistent peer again
 Retry(p) ==
     /\ st[p] = "disconnected"
@@ -207,7 +215,7 @@ Idle ==
     /\ UNCHANGED st
 
 Next ==
-    \/ \E p \in Peer : Attempt(p) \/ Connect(p) \/ Disconnect(p) \/ Retry(p)
+    \/ \E p \in Peer : Attempt(p) \/ Connect(p) \/ Disconnect(p) \/ StaleDisconnect(p) \/ Retry(p)
     \/ \E r \in Repo, p \in Peer : FetchCmd(r, p) \/ AnnFetch(r, p)
     \/ \E g \in DOMAIN tasks : TaskDone(g)
     \/ Idle
